@@ -1,4 +1,5 @@
 """C08 Reordering"""
+import elevels
 import eswap
 import evlm
 import etaut
@@ -79,5 +80,9 @@ def run(ctx):
     ctx.explain("E-PERM.leveldown: level_down(u) swaps (u, u + 1) with matching stale numbers and rewrites the level numbers of "
                 "both levels afterwards.")
     esort.check_level_down(ctx, F)
+    ctx.explain("E-LEVELS: Manager::levels() (forward, backward and mixed iteration) and Manager::level(no) of both managers pair "
+                "every level number with that level's unique table (interpreted on a four-level model).")
+    nlv = elevels.run(ctx, F)
+    ctx.floor("E-LEVELS", "interpreted iteration / access situations", nlv, 16)
     ctx.not_decided = ("that functions are preserved, that the requested order is reached with minimal swaps, "
                        "non-overlap of concurrent swaps (runtime indices)")
